@@ -118,14 +118,26 @@ pub fn run(args: &[String]) -> i32 {
         f(Src::Ledger, 20, 1, 0, "0.25", 0),
         f(Src::Db, 12, 3, 2, "0.8", 0),
     ];
+    // a chain of three steps whose MIDDLE price changes (or first appears) after the latest price of both end commodities:
+    // the rate table belongs to the query date, not to the date either end was last priced (seed C10-j)
+    let pool2 = [
+        f(Src::Ledger, 3, 0, 1, "2", 0),
+        // (rates are powers of two so that reciprocals and products are exact in whatever order they are taken)
+        f(Src::Ledger, 4, 1, 2, "4", 0),
+        f(Src::Ledger, 15, 1, 2, "8", 0),
+        f(Src::Ledger, 6, 2, 3, "0.5", 0),
+        f(Src::Db, 18, 2, 3, "4", 0),
+    ];
+    let dir = tempfile::tempdir().expect("tempdir");
+    for (pool_no, pool, dates) in [(1u32, &pool[..], [1u32, 5, 7, 9, 12, 25]), (2u32, &pool2[..], [2u32, 5, 10, 16, 17, 20])] {
     let n = pool.len();
     let max_size = if thorough { 5 } else { 4 };
-    let dir = tempfile::tempdir().expect("tempdir");
     for mask in 1u32..(1 << n) {
         if mask.count_ones() > max_size { continue; }
+        let mask_id = mask + (pool_no << 16);
         let facts: Vec<Fact> = (0..n).filter(|i| mask & (1 << i) != 0).map(|i| pool[i]).collect();
         let (ledger_text, db_text) = render(&facts);
-        let db_path = dir.path().join(format!("p{}.db", mask));
+        let db_path = dir.path().join(format!("p{}.db", mask_id));
         std::fs::write(&db_path, &db_text).unwrap();
         let arena = Bump::new();
         let mut ctx = report::ReportContext::new(&arena);
@@ -137,7 +149,7 @@ pub fn run(args: &[String]) -> i32 {
             Ok(l) => l,
             Err(e) => { bad.push((format!("{}\nprice db:\n{}", ledger_text, db_text), format!("ledger rejected: {}", e))); continue; }
         };
-        for at in [1u32, 5, 7, 9, 12, 25] {
+        for at in dates {
             for from in 0..4 {
                 for to in 0..4 {
                     let want = match twin(&facts, from, to, at) { Some(w) => w, None => { undecided += 1; continue; } };
@@ -169,6 +181,7 @@ pub fn run(args: &[String]) -> i32 {
                 }
             }
         }
+    }
     }
     for (s, why) in bad.iter().take(10) {
         println!("{}", serde_json::json!({"input": s, "contradiction": why}));
